@@ -29,6 +29,17 @@ Theorem C04_digest_is_spec :
 Proof. exact digest_is_spec. Qed.
 Print Assumptions C04_digest_is_spec.
 
+(* 1a. The exported HashStruct (hashing one struct value without the domain) is the spec's hashStruct:
+       keccak256(typeHash || encodeData(value)), 32 zero bytes for the absent value. *)
+Theorem C04_hashStruct_is_spec :
+  forall (H : bytes -> bytes) (big_other : bytes -> option Z) (all : typeset) (sts : types),
+    repr_types all sts -> wf_types sts -> types_dims_fit sts ->
+    forall (n : bytes) (g : gval) (v : value),
+      In n (keys sts) -> repr big_other sts (Struct n) g v -> well_typed sts (Struct n) v = true ->
+      HashStruct H big_other n g all = Ok (Spec.hashStruct H sts n v).
+Proof. exact hashStruct_top. Qed.
+Print Assumptions C04_hashStruct_is_spec.
+
 (* 1'. The same statement in functional form: [parse_doc] (Eip712/Parse.v, executable) reads the Go-level
       document as an EIP-712 document, [well_formed_b] is the decidable well-formedness check. *)
 Theorem C04_digest_is_spec_parse :
